@@ -39,6 +39,7 @@ type gm struct {
 	cfiles      []*file // the files a unit reads its constants (and record declarations) from
 	foreign     map[string]bool   // fields of the receiver that hold objects of other types (their methods are external calls)
 	namedInts   map[string]string // package-level `type T <integer type>`: a conversion T(x) is the conversion to the underlying type
+	namedRes    []string          // named results of the function being translated (embedding names): a bare `return` returns them
 }
 
 // namedIntTypes: `type msgType byte` … of the files a unit reads its constants from.
@@ -518,6 +519,14 @@ func (g *gm) stmt(s ast.Stmt) []string {
 		}
 		return out
 	case *ast.ReturnStmt:
+		if len(x.Results) == 0 && len(g.namedRes) > 0 {
+			// bare `return` of a function with named results: their current values
+			var vs []string
+			for _, n := range g.namedRes {
+				vs = append(vs, "(.var "+strconv.Quote(n)+")")
+			}
+			return []string{"(.ret [" + strings.Join(vs, ", ") + "])"}
+		}
 		return []string{"(.ret " + g.exprs(x.Results) + ")"}
 	case *ast.BranchStmt:
 		if x.Label != nil {
@@ -820,15 +829,21 @@ func genGoMini(module string, order []string, units map[string][]string, constFi
 					params = append(params, strconv.Quote(g.declare(n.Name)))
 				}
 			}
+			// parameters and the function's outermost block are ONE scope in Go
+			var bodyStmts []string
 			if fd.Type.Results != nil {
 				for _, p := range fd.Type.Results.List {
 					for _, n := range p.Names {
-						g.declare(n.Name) // named results (a bare `return` is outside the subset)
+						// named results: declared with their zero value when the function starts; a bare `return` returns them.
+						// (A deferred closure that changes a named result after the `return` is outside the subset like every closure.)
+						nm := g.declare(n.Name)
+						if nm != "_" {
+							g.namedRes = append(g.namedRes, nm)
+							bodyStmts = append(bodyStmts, "(.assign [.var "+strconv.Quote(nm)+"] ["+zeroExpr(p.Type)+"])")
+						}
 					}
 				}
 			}
-			// parameters and the function's outermost block are ONE scope in Go
-			var bodyStmts []string
 			for _, st := range fd.Body.List {
 				bodyStmts = append(bodyStmts, g.stmt(st)...)
 			}
@@ -938,12 +953,25 @@ func genGoMiniAll() []*leanFile {
 		[]string{cl + "util.go"},
 		map[string][]string{cl + "util.go": {"findSegment", "findSegmentContains", "findSegmentByBaseOffset", "roundDown"}},
 		clConsts)})
+	out = append(out, &leanFile{name: "GoTimestamps", raw: genGoMini("GoTimestamps",
+		[]string{cl + "commitlog.go"},
+		map[string][]string{cl + "commitlog.go": {"commitLog.EarliestOffsetAfterTimestamp", "commitLog.LatestOffsetBeforeTimestamp"}},
+		clConsts)})
+	out = append(out, &leanFile{name: "GoHWPos", raw: genGoMini("GoHWPos",
+		[]string{cl + "reader.go"},
+		map[string][]string{cl + "reader.go": {"getHWPos"}},
+		clConsts)})
 	sv := "server/"
 	out = append(out, &leanFile{name: "GoPartition", raw: genGoMini("GoPartition",
 		[]string{sv + "partition.go"},
 		map[string][]string{sv + "partition.go": {
 			"partition.truncateUncommitted", "partition.truncateToHW", "partition.inReplicas", "partition.inISR",
 			"partition.RemoveFromISR", "partition.AddToISR"}},
+		[]string{sv + "partition.go"})})
+	out = append(out, &leanFile{name: "GoCommit", raw: genGoMini("GoCommit",
+		[]string{sv + "partition.go"},
+		map[string][]string{sv + "partition.go": {"replica.updateLatestOffset", "replica.resetLatestOffset", "replica.getLatestOffset",
+			"partition.updateISRLatestOffset", "min", "minInt64"}},
 		[]string{sv + "partition.go"})})
 	out = append(out, &leanFile{name: "GoFailover", raw: genGoMini("GoFailover",
 		[]string{sv + "failover.go", sv + "partition.go"},
